@@ -17,6 +17,14 @@ CHECKS = {
          "Exploration: ownership-heavy generated programs run on inputs that steer every branch; after each call the drop-tracked host types and the per-thread allocation counter must balance.",
          "Balance is checked per call, not per statement; zero-sized clone type excluded while C03-F3 is open; harness global allocator wrapper trusted.",
          "DESIGN.md §4 C03"),
+ "C06": ("generated source texts (random token sequences, token/character-mutated valid programs, untyped syntactically valid programs, single type-breaking edits) as single files and module trees; totality oracle in crash-isolated workers",
+         "Exploration: compile() must return a package or a report for every generated text; the report must render with and without colour and every cited location must lie inside its file on char boundaries; panics, aborts and stack overflows are observed through worker isolation.",
+         "Inputs <= 16 KiB and bracket depth <= 64; hangs are reported as inconclusive by a watchdog; locations come from hook verif_locations.",
+         "DESIGN.md §4 C06"),
+ "C07": ("one type-breaking edit (catalogue of 26 kinds) on a well-typed generated program; must be rejected with a type error",
+         "Exploration: for each generated well-typed program one edit that is ill-typed by construction is applied at a random applicable site; compile must return a report starting with `Error: Type error`.",
+         "Single edits only; soundness of the catalogue argued per edit in DESIGN.md.",
+         "DESIGN.md §4 C07"),
  "C08": ("generated programs with uniquely tagged effect markers at every expression position; ordered host-call log compared with the reference interpreter",
          "Exploration: the ordered sequence of (marker, arguments) host calls of each generated program equals the sequence obtained by left-to-right, short-circuit, guard-order evaluation in the reference interpreter.",
          "Trusts the reference interpreter's evaluation order, written from the property statement.",
